@@ -43,6 +43,8 @@ static void one(idx_t l1, idx_t l2, int ndim, DTWSettings *st) {
     acc(euclidean_distance_ndim(s1, l1, s2, l2, ndim)); acc(euclidean_distance_ndim_euclidean(s1, l1, s2, l2, ndim)); calls[22] += 2;
     // compact warping paths in a buffer of exactly the advertised size
     idx_t wl = dtw_settings_wps_length(l1, l2, st);
+    if (wl != (l1 + 1) * dtw_settings_wps_width(l1, l2, st)) abort();
+    if (ndim == 1) { seq_t *we = malloc(sizeof(seq_t) * wl); acc(dtw_warping_paths_euclidean(we, s1, l1, s2, l2, true, true, false, st)); free(we); calls[2]++; }
     for (int neg = 0; neg < 2; neg++) {
         seq_t *wps = malloc(sizeof(seq_t) * wl);
         if (ndim == 1) { acc(dtw_warping_paths(wps, s1, l1, s2, l2, true, neg, neg, st)); calls[2]++; }
@@ -146,6 +148,8 @@ static void matrices(int n, int ndim, int maxlen, DTWSettings *st) {
         dtw_srand(5);
         dtw_dba_ptrs(ptrs, n, lengths, c, t, mask, 2, ndim, st); calls[29]++; acc(c[t * ndim - 1]);
         dtw_dba_matrix(matrix, n, L0, c, t, mask, 0, ndim, st); calls[30]++; acc(c[0]);
+        dtw_srand(9);
+        dtw_dba_matrix(matrix, n, L0, c, t, mask, 2, ndim, st); calls[30]++; acc(c[t * ndim - 1]);
         free(mask); free(c);
     }
     for (int i = 0; i < n; i++) free(ptrs[i]);
